@@ -429,6 +429,8 @@ package lang
 //@ ghost $lastOut error
 //@ ghost $mark int
 //@ ghost $selParsed int
+//@ ghost $opened int
+//@ ghost $exitSeen bool
 //@ ghost $pendingFile bool
 //@ ghost $lastDecode error
 
@@ -960,18 +962,26 @@ package lang
 // lemma L1 (DESIGN.md section 5).  next and exit are proved consumed.
 //@ spec func isScopedFlow(err error) bool = err == errBreak || err == errContinue || err == errReturn
 //@ spec func drvOK(e *Evaluator) bool = e != nil && e.lexer != nil && frameOK(e.stackTop) && e.evalDepth == 0 && 0 < evalDepthLimit
-//@ func EvalProgram [C01,C02,C03,C04,C11,C14]
+//@ func EvalProgram [C01,C02,C03,C04,C05,C11,C14]
 //@   requires !$faulted
 //@   updates $faulted, $out
 //@   ensures[C01] errkind: err == nil || isSyn(err) || isRT(err) || isJsonErr(err) || isScopedFlow(err)
 //@   ensures[C01] next-and-exit-consumed: err != errNext && err != errExit
 //@   ensures[C11] success-means-no-fault: err == nil ==> !$faulted
+//@   externals[C03,C04,C05] the-decoder-is-used-as-it-comes: encoding/json.NewDecoder, (*encoding/json.Decoder).Decode
 //@   init $pendingFile = false
 //@   init $mark = 0
 //@   init $selParsed = 0
+//@   init $opened = 0
+//@   init $exitSeen = false
+//@   after encoding/json.NewDecoder: $opened = $opened + 1
+//@   after Evaluator.evalStatement: $exitSeen = $exitSeen || ret0 == errExit
+//@   after Evaluator.evalPatternRules: $exitSeen = $exitSeen || ret0 == errExit
+//@   after EvalExpression: $exitSeen = $exitSeen || ret1 == errExit
+//@   ensures[C02,C03] every-input-file-is-read-unless-the-program-exits: err == nil && !$exitSeen ==> $opened == len(old(files))
 //@   after Parser.ParseExpression: $selParsed = (ret1 == nil ? $selParsed + 1 : $selParsed)
 //@   assert[C11,C14] nothing-runs-before-every-selector-has-parsed: $selParsed == len(rootSelectors) @ Evaluator.evalStatement
-//@   loop 0 invariant[C11,C14] selectors-parsed-so-far: !$faulted && $selParsed == rangeindex + 1
+//@   loop 0 invariant[C11,C14] selectors-parsed-so-far: $opened == 0 && !$exitSeen && !$faulted && $selParsed == rangeindex + 1
 //@   after encoding/json.NewDecoder: $pendingFile = true
 //@   after (*encoding/json.Decoder).Decode: $lastDecode = ret0
 //@   after (*encoding/json.Decoder).Decode: $pendingFile = (ret0 == extvar("io.EOF") ? false : $pendingFile)
@@ -985,15 +995,15 @@ package lang
 //@   assert[C02] pattern-rules-see-the-selected-root: ev.root == rootCell && arg1 == ev.patternRules @ Evaluator.evalPatternRules
 //@   assert?[C02] begin-and-end-rules-see-a-fresh-null: rule.Kind != BeginFileRule && rule.Kind != EndFileRule ==> ev.ruleRoot != nil && ev.ruleRoot.Value.Tag == ValueNil && ev.ruleRoot.Value.ParentObj == nil && newerThan(ev.ruleRoot, $mark) && arg1 == rule.Body @ Evaluator.evalStatement
 //@   exit[C03] decoder-errors-name-the-file: isJsonErr(err) ==> $lastDecode != nil && $lastDecode != extvar("io.EOF")
-//@   loop 1 invariant ready: $selParsed == len(rootSelectors) && drvOK(&ev) && !$faulted && $mark <= $alloc
-//@   loop 2 invariant ready: $selParsed == len(rootSelectors) && drvOK(&ev) && !$faulted && $mark <= $alloc && !$pendingFile
-//@   loop 3 invariant ready: $selParsed == len(rootSelectors) && drvOK(&ev) && !$faulted && $mark <= $alloc && $pendingFile
-//@   loop 4 invariant ready: $selParsed == len(rootSelectors) && drvOK(&ev) && !$faulted && $mark <= $alloc
+//@   loop 1 invariant ready: $opened == 0 && !$exitSeen && $selParsed == len(rootSelectors) && drvOK(&ev) && !$faulted && $mark <= $alloc
+//@   loop 2 invariant ready: $opened == rangeindex + 1 && len(files) == len(old(files)) && !$exitSeen && $selParsed == len(rootSelectors) && drvOK(&ev) && !$faulted && $mark <= $alloc && !$pendingFile
+//@   loop 3 invariant ready: !$exitSeen && $selParsed == len(rootSelectors) && drvOK(&ev) && !$faulted && $mark <= $alloc && $pendingFile
+//@   loop 4 invariant ready: !$exitSeen && $selParsed == len(rootSelectors) && drvOK(&ev) && !$faulted && $mark <= $alloc
 //@   loop 4 invariant[C02,C14] one-root-per-selector-so-far: len(rootCells) == rangeindex + 1
-//@   loop 5 invariant ready: $selParsed == len(rootSelectors) && drvOK(&ev) && !$faulted && $mark <= $alloc
+//@   loop 5 invariant ready: !$exitSeen && $selParsed == len(rootSelectors) && drvOK(&ev) && !$faulted && $mark <= $alloc
 //@   loop 5 invariant[C02,C14] roots-of-this-value-only: len(rootCells) == (len(rootSelectors) > 0 ? len(rootSelectors) : 1)
-//@   loop 6 invariant ready: $selParsed == len(rootSelectors) && drvOK(&ev) && !$faulted && $mark <= $alloc
-//@   loop 7 invariant ready: $selParsed == len(rootSelectors) && drvOK(&ev) && !$faulted && $mark <= $alloc
+//@   loop 6 invariant ready: !$exitSeen && $selParsed == len(rootSelectors) && drvOK(&ev) && !$faulted && $mark <= $alloc
+//@   loop 7 invariant ready: !$exitSeen && $selParsed == len(rootSelectors) && drvOK(&ev) && !$faulted && $mark <= $alloc
 //@   loop 8 invariant[C03] ready-and-all-input-consumed: drvOK(&ev) && !$faulted && !$pendingFile && $mark <= $alloc
 //@   ensures[C01] evaluator-returned: (err == nil || isRT(err) || isJsonErr(err)) ==> result0 != nil
 
@@ -1240,11 +1250,11 @@ package lang
 //@ func group [C01,C06]
 //@   implements parseRule.prefix
 
-//@ func unary [C01,C06,C11]
+//@ func unary [C01,C06,C11,C13]
 //@   implements parseRule.prefix
 //@   ensures[C11] incr-target-is-assignable: result1 == nil && (old(arg0.current.Tag) == PlusPlus || old(arg0.current.Tag) == MinusMinus) ==> assignable(as(result0, *ExprUnary).Expr)
 //@   assert[C06] operand-at-unary-level: arg1 == PrecUnary @ Parser.expressionWithPrec
-//@   ensures[C06] node-shape: result1 == nil ==> istype(result0, *ExprUnary) && !as(result0, *ExprUnary).Postfix && as(result0, *ExprUnary).OpToken.Tag == old(arg0.current.Tag)
+//@   ensures[C06,C13] node-shape: result1 == nil ==> istype(result0, *ExprUnary) && !as(result0, *ExprUnary).Postfix && as(result0, *ExprUnary).OpToken.Tag == old(arg0.current.Tag)
 
 //@ func computedMember [C01,C06]
 //@   implements parseRule.infix
@@ -1262,9 +1272,10 @@ package lang
 // a member or an index expression.
 //@ spec func assignable(x Expr) bool = istype(x, *ExprIdentifier) || (istype(x, *ExprBinary) && (as(x, *ExprBinary).OpToken.Tag == Dot || as(x, *ExprBinary).OpToken.Tag == LSquare))
 
-//@ func Parser.checkAssignable [C01,C11]
+//@ func Parser.checkAssignable [C01,C11,C12]
 //@   requires parserOK(p) && target != nil
 //@   ensures[C11] error-iff-not-assignable: (err != nil) <==> !assignable(target)
+//@   assert[C12] an-invalid-target-is-reported-at-the-target-itself: arg1 == smt("im_Token", Token, target).Pos @ Parser.error
 //@   ensures[C01] errkind: err != nil ==> isSyn(err)
 //@   modifies nothing
 
@@ -1416,6 +1427,7 @@ package lang
 //@   ensures[C04,C16] inexpressible-argument-is-an-error: len(args) == 1 && (args[0].Tag == ValueFn || args[0].Tag == ValueNativeFn || args[0].Tag == ValueRegex) ==> err != nil
 //@   ensures[C16] result-is-text: err == nil ==> result0 != nil && result0.Tag == ValueStr
 //@   assert[C04,C16] serialises-its-own-argument: arg0 == args[0] @ Value.ToGoValue
+//@   externals[C04,C16] the-text-is-the-library-serialisation-and-nothing-else: fmt.Errorf, encoding/json.MarshalIndent
 //@   modifies nothing
 
 //@ func nativeNum [C16]
